@@ -250,6 +250,50 @@ pub fn c05(a: &Analysis) -> Vec<Violation> {
     out
 }
 
+/// C06 on a resumed session: the outcome a publish() reports is that of a completing
+/// acknowledgement addressed to it, whichever connection it arrived on, and a publish whose
+/// completing acknowledgement was consumed on the connection still being served is not pending.
+pub fn c06_resumed(a: &Analysis) -> Vec<Violation> {
+    let mut out = Vec::new();
+    let last = a.conns.len().saturating_sub(1);
+    let serving = a.ctx_gone.is_none() && a.conns.last().map(|c| c.run_started.is_some() && c.run_returned.is_none() && c.consumed == c.inbound_len && !c.write_blocked_at_end).unwrap_or(false);
+    for op in a.ops.values() {
+        if !matches!(op.spec.publish_qos(), Some(1) | Some(2)) || locally_refused(op) {
+            continue;
+        }
+        let pubrecs = a.acks_for(op.idx).iter().filter(|i| i.avail_seq.is_some() && matches!(&i.p.pkt, Some(Packet::Pubrec(_)))).count();
+        let completing: Vec<&InView> = a
+            .acks_for(op.idx)
+            .into_iter()
+            .filter(|i| i.avail_seq.is_some())
+            .filter(|i| match &i.p.pkt {
+                Some(Packet::Puback(_)) | Some(Packet::Pubcomp(_)) => true,
+                // a failing PUBREC ends the exchange only if it is the broker's one answer to the
+                // PUBLISH (the script may answer again after a connection loss it believes ate
+                // the first answer; a second, different PUBREC is not a conformant history)
+                Some(Packet::Pubrec(x)) => x.reason >= 0x80 && pubrecs == 1,
+                _ => false,
+            })
+            .collect();
+        match op.returned.first() {
+            Some((_, got)) => {
+                if got.err_variant() == Some("ContextExited") || completing.is_empty() {
+                    continue;
+                }
+                if !completing.iter().any(|ack| outcome_matches(got, &expected_outcome(op, ack.p.pkt.as_ref().unwrap()))) {
+                    out.push(v("C06", "C06/result/resumed-session", format!("op {} returned {:?}, which no acknowledgement addressed to it says", op.idx, got)));
+                }
+            }
+            None => {
+                if serving && op.cancelled.is_none() && op.panicked.is_none() && completing.iter().any(|i| i.p.conn == last) {
+                    out.push(v("C06", "C06/result/resumed-session/pending", format!("op {} still pending although its completing acknowledgement arrived on the resumed connection", op.idx)));
+                }
+            }
+        }
+    }
+    out
+}
+
 /// C06 — outbound QoS handshake on the wire and reported outcome.
 pub fn c06(a: &Analysis) -> Vec<Violation> {
     let mut out = Vec::new();
@@ -397,6 +441,13 @@ fn subid_state(i: &InView) -> &'static str {
 /// C08 — every inbound QoS>0 PUBLISH and PUBREL is acknowledged exactly once, in order.
 /// Exact at the end of fault-free runs in which everything injected was consumed.
 pub fn c08(a: &Analysis) -> Vec<Violation> {
+    c08_in(a, None)
+}
+
+/// With the scenario at hand the oracle also knows whether `run()` had a reason to end: a packet
+/// it consumed before ending for no reason (no DISCONNECT, fault, undecodable input or handle
+/// loss) arrived "while run() was serving" and must have been acknowledged.
+pub fn c08_in(a: &Analysis, sc: Option<&Scenario>) -> Vec<Violation> {
     let mut out = Vec::new();
     for (c, conn) in a.conns.iter().enumerate() {
         if conn.run_started.is_none() {
@@ -442,7 +493,8 @@ pub fn c08(a: &Analysis) -> Vec<Violation> {
                     }
                 }
                 (Some(e), None) => {
-                    if complete {
+                    let ended_for_nothing = conn.run_returned.is_some() && a.ctx_gone.is_none() && sc.map(|sc| causes(a, sc, c).is_empty()).unwrap_or(false) && e.2.p.end <= conn.consumed;
+                    if complete || ended_for_nothing {
                         let what = match e.0 {
                             Kind::Puback => "qos1",
                             Kind::Pubrec => "qos2",
@@ -659,23 +711,94 @@ fn is_completion(p: &Packet) -> bool {
     }
 }
 
+/// Packets that occupy a Receive Maximum slot on connection `c`, in wire order; the flag says
+/// "carried over" (re-sent PUBLISH, or PUBREL of an exchange begun on an earlier connection).
+fn slot_takers<'a>(a: &'a Analysis, c: usize) -> Vec<(&'a WirePkt, bool)> {
+    let mut out = Vec::new();
+    // Some(true): connection c resumed an unexpired session; Some(false): first connection or the
+    // session had expired (nothing is carried over, an old exchange continuing with its PUBREL
+    // belongs to a session the server no longer has); None: too close to the expiry instant
+    let carried_session = if c == 0 {
+        Some(false)
+    } else {
+        match a.events.iter().find_map(|e| if let Ev::Resumed { conn, elapsed } = e { if *conn == c { Some(*elapsed) } else { None } } else { None }) {
+            None => Some(false),
+            Some(elapsed) => {
+                let e = session_expiry(a, c - 1);
+                if e != 0 && e != u32::MAX as u64 && (elapsed as i64 - e as i64).abs() <= 60 {
+                    None
+                } else {
+                    Some(!(e == 0 || (e != u32::MAX as u64 && elapsed > e)))
+                }
+            }
+        }
+    };
+    if carried_session.is_none() {
+        return out;
+    }
+    let carried_session = carried_session.unwrap();
+    for w in a.wire.iter().filter(|w| w.conn == c) {
+        match &w.pkt {
+            Packet::Publish(x) if x.qos > 0 => out.push((w, x.dup)),
+            Packet::Pubrel(r) => {
+                let rec_here = a.inbound.iter().any(|i| {
+                    i.p.conn == c && matches!(&i.p.pkt, Some(Packet::Pubrec(x)) if x.pid == r.pid) && matches!(i.avail_seq, Some(av) if av < w.seq_first)
+                });
+                let pub_here = a.wire.iter().any(|x| x.conn == c && x.off < w.off && matches!(&x.pkt, Packet::Publish(pp) if pp.pid == Some(r.pid) && pp.qos == 2));
+                if !rec_here && !pub_here && carried_session {
+                    out.push((w, true));
+                }
+            }
+            _ => {}
+        }
+    }
+    out
+}
+
 /// C10 — Receive Maximum. `probe_from`: index of the first op of the quota probe epilogue.
 pub fn c10(a: &Analysis, probe_from: Option<usize>) -> Vec<Violation> {
     let mut out = Vec::new();
+    let multi = a.conns.len() > 1;
     for c in 0..a.conns.len() {
         let r = receive_max(a, c);
-        // (a) safety, broker view
-        let pubs: Vec<&WirePkt> = a.wire.iter().filter(|p| p.conn == c && matches!(&p.pkt, Packet::Publish(x) if x.qos > 0 && !x.dup)).collect();
-        for (n, p) in pubs.iter().enumerate() {
-            let done = a
-                .inbound
-                .iter()
-                .filter(|i| i.p.conn == c && i.p.pkt.as_ref().map(is_completion).unwrap_or(false))
-                .filter(|i| matches!(i.avail_seq, Some(av) if av < p.seq_first))
-                .count();
-            if n + 1 - done.min(n + 1) > r {
-                out.push(v("C10", "C10/exceeded", format!("PUBLISH #{n} written with {} outstanding, Receive Maximum {r}", n + 1 - done)));
-                break;
+        // (a) safety, broker view. What occupies a slot on connection c: every QoS>0 PUBLISH
+        // written on it, first transmissions and re-sent ones (DUP=1) alike, and every exchange
+        // carried over from an earlier connection in its second phase (a PUBREL written on c
+        // whose PUBREC did not arrive on c). Only a *new* PUBLISH can be a violation: what a
+        // resumed session must re-send is not the library's choice.
+        let takers = slot_takers(a, c);
+        let carried = takers.iter().filter(|t| t.1).count();
+        if carried > r {
+            continue; // the broker lowered R below what the session already has in flight
+        }
+        // replay takers and completions in sequence order; a completion frees the slot of the
+        // exchange bearing its identifier (and nothing if no such exchange holds a slot here)
+        let mut events: Vec<(usize, Option<(usize, bool)>, u16)> = Vec::new(); // (seq, taker(index, carried) | completion, pid)
+        for (n, (p, is_carried)) in takers.iter().enumerate() {
+            events.push((p.seq_first, Some((n, *is_carried)), p.pkt.pid().unwrap_or(0)));
+        }
+        for i in a.inbound.iter().filter(|i| i.p.conn == c && i.p.pkt.as_ref().map(is_completion).unwrap_or(false)) {
+            if let (Some(av), Some(id)) = (i.avail_seq, i.p.pkt.as_ref().and_then(|p| p.pid())) {
+                events.push((av, None, id));
+            }
+        }
+        events.sort_by_key(|e| (e.0, e.1.is_some()));
+        let mut held: Vec<u16> = Vec::new();
+        for (_, what, id) in events {
+            match what {
+                None => {
+                    if let Some(pos) = held.iter().position(|x| *x == id) {
+                        held.remove(pos);
+                    }
+                }
+                Some((n, is_carried)) => {
+                    held.push(id);
+                    if !is_carried && held.len() > r {
+                        let class = if carried > 0 { "C10/exceeded/resumed-session" } else { "C10/exceeded" };
+                        out.push(v("C10", class, format!("PUBLISH #{n} written with {} outstanding ({carried} carried over from the previous connection), Receive Maximum {r}", held.len())));
+                        break;
+                    }
+                }
             }
         }
     }
@@ -690,6 +813,9 @@ pub fn c10(a: &Analysis, probe_from: Option<usize>) -> Vec<Violation> {
             }
             if probe_from.map(|f| op.idx >= f).unwrap_or(false) {
                 continue;
+            }
+            if multi {
+                continue; // exactness across connections is judged by the probe epilogue (b)
             }
             // impossible-for-any-serial-order test
             let fp = op.first_poll.unwrap_or(0);
@@ -710,9 +836,30 @@ pub fn c10(a: &Analysis, probe_from: Option<usize>) -> Vec<Violation> {
     if let Some(first) = probe_from {
         let probes: Vec<&OpView> = a.ops.values().filter(|o| o.idx >= first).collect();
         if !probes.is_empty() && a.ctx_gone.is_none() && !a.run_returned() {
-            let before = a.wire.iter().filter(|p| matches!(&p.pkt, Packet::Publish(x) if x.qos > 0 && !x.dup) && marker_of(&p.pkt).map(|m| m < first).unwrap_or(true)).count();
-            let done = a.inbound.iter().filter(|i| i.p.pkt.as_ref().map(is_completion).unwrap_or(false)).count();
-            let free = r.saturating_sub(before.saturating_sub(done));
+            // the probe runs on the last connection: slots in use there, carried-over ones included
+            let last = a.conns.len().saturating_sub(1);
+            let r = receive_max(a, last);
+            let mut held: Vec<u16> = Vec::new();
+            {
+                let mut events: Vec<(usize, bool, u16)> = Vec::new();
+                for (p, _) in slot_takers(a, last).iter().filter(|(p, _)| marker_of(&p.pkt).map(|m| m < first).unwrap_or(true)) {
+                    events.push((p.seq_first, true, p.pkt.pid().unwrap_or(0)));
+                }
+                for i in a.inbound.iter().filter(|i| i.p.conn == last && i.p.pkt.as_ref().map(is_completion).unwrap_or(false)) {
+                    if let (Some(av), Some(id)) = (i.avail_seq, i.p.pkt.as_ref().and_then(|p| p.pid())) {
+                        events.push((av, false, id));
+                    }
+                }
+                events.sort_by_key(|e| (e.0, e.1));
+                for (_, taker, id) in events {
+                    if taker {
+                        held.push(id);
+                    } else if let Some(pos) = held.iter().position(|x| *x == id) {
+                        held.remove(pos);
+                    }
+                }
+            }
+            let free = r.saturating_sub(held.len());
             let accepted = probes.iter().filter(|o| a.request_of(o.idx).len() == 1).count();
             let refused = probes.iter().filter(|o| o.err() == Some("QuotaExceeded")).count();
             if probes.len() == free + 1 {
@@ -1468,6 +1615,11 @@ pub fn c12(a: &Analysis, twin: &Analysis, probe_from: Option<usize>) -> Vec<Viol
             out.push(x);
         }
     }
+    // no stream registration disturbed: every subscription still gets exactly its messages
+    for mut x in streams_check(a, "C12") {
+        x.class = format!("C12/side-effect/stream/{}", x.class.trim_start_matches("C12/"));
+        out.push(x);
+    }
     // no stray completion: an operation refused locally returned exactly once
     for op in a.ops.values() {
         if op.returned.len() > 1 {
@@ -1501,7 +1653,8 @@ pub fn c11(a: &Analysis) -> Vec<Violation> {
         let mut evs: Vec<(usize, E)> = Vec::new();
         for w in a.wire.iter().filter(|w| w.conn == c) {
             match &w.pkt {
-                Packet::Publish(p) if p.qos > 0 && !p.dup => evs.push((w.seq_first, E::Req(w))),
+                // re-sent publishes keep their identifier outstanding on the new connection too
+                Packet::Publish(p) if p.qos > 0 => evs.push((w.seq_first, E::Req(w))),
                 Packet::Subscribe(_) | Packet::Unsubscribe(_) => evs.push((w.seq_first, E::Req(w))),
                 _ => {}
             }
